@@ -118,6 +118,8 @@ pub struct Held {
 	/// model poison states at the moment of the acquisition: the Ok/Err inside
 	/// a guard is decided when the guard is made, not when it is looked at
 	pub pois_snapshot: HashMap<WrapId, PState>,
+	/// owner table right before the acquisition (quiescent mode: dropping the guard must restore it)
+	pub table_before: Option<Vec<(Option<Tid>, Vec<Tid>)>>,
 }
 
 pub struct ThreadCtx {
@@ -932,7 +934,8 @@ fn step_acquire(env: &Env, ctx: &mut ThreadCtx, target: TargetRef, read: bool, t
 				record_acq_order(env, tid, t0, target, read);
 			}
 			let pois_snapshot = env.sh().poison.clone();
-			let mut h = Held { g, target, read, flat, pois_snapshot };
+			let table_before = if env.opts.quiescent { Some(before.clone()) } else { None };
+			let mut h = Held { g, target, read, flat, pois_snapshot, table_before };
 			// top-level poison status
 			if let Some(b) = h.g.top_poisoned() {
 				if let Some(w) = own_wrappers(env, target).first() {
@@ -1125,6 +1128,7 @@ fn step_release(env: &Env, ctx: &mut ThreadCtx, how: ReleaseHow) -> bool {
 	let what = format!("{:?}:{}", how, kind_name(env, h.target));
 	let t0 = env.exec.trace_len();
 	let target = h.target;
+	let table_before = h.table_before.clone();
 	match how {
 		ReleaseHow::Forget => {
 			let mut sh = env.sh();
@@ -1174,6 +1178,21 @@ fn step_release(env: &Env, ctx: &mut ThreadCtx, how: ReleaseHow) -> bool {
 						}
 					}
 					check_release_parity(env, tid, t0, &expect, &what, "C05");
+					if let Some(tb) = &table_before {
+						// quiescent: nothing else moved since the acquisition unless a
+						// phantom step ran in between; compare only this thread's view
+						let now = env.exec.table();
+						let mine_now: Vec<bool> = now.iter().map(|(x, s)| *x == Some(tid) || s.contains(&tid)).collect();
+						let mine_before: Vec<bool> = tb.iter().map(|(x, s)| *x == Some(tid) || s.contains(&tid)).collect();
+						if mine_now != mine_before {
+							env.finding(
+								"C13",
+								tid,
+								format!("drop-does-not-restore|{what}"),
+								format!("{what} of {target:?}: the caller's holds after dropping the guard differ from before the acquisition"),
+							);
+						}
+					}
 					if let Some(k) = k {
 						ctx.key = Some(k);
 						env.label("key_via_unlock");
